@@ -1,6 +1,7 @@
 package sim
 
 import (
+	"crypto/rsa"
 	"crypto/sha1"
 	"crypto/x509"
 	"crypto/x509/pkix"
@@ -96,14 +97,39 @@ type OCSPRespSpec struct {
 	Embed         []*x509.Certificate
 	FlipSig       bool
 	FlipTBS       bool
+	PadTo         int // >0: total size of the encoded response in bytes (reached by an extra element of the certs list)
 }
 
 func encodeOCSPError(status int) []byte {
 	return mustMarshal(ocspRespNoBytes{Status: asn1.Enumerated(status)})
 }
 
-// EncodeOCSP builds and signs the response.
+// EncodeOCSP builds and signs the response. With PadTo it is brought to that
+// exact size: by a further element of the (unsigned) certs list when the
+// responder embeds its certificate, else - signature values of constant length
+// only, i.e. RSA signers - by a non-critical private single extension.
 func EncodeOCSP(s *OCSPRespSpec) []byte {
+	out := encodeOCSP(s, 0)
+	if s.PadTo <= len(out)+40 || len(s.Embed) > 0 || len(s.Singles) == 0 {
+		return out
+	}
+	if _, isRSA := s.SignerKey.Priv.(*rsa.PrivateKey); !isRSA {
+		return out
+	}
+	n := s.PadTo - len(out) - 24
+	for iter := 0; iter < 8 && n > 0; iter++ {
+		out = encodeOCSP(s, n)
+		if len(out) == s.PadTo {
+			break
+		}
+		n += s.PadTo - len(out)
+	}
+	return out
+}
+
+var oidSimPad = asn1.ObjectIdentifier{1, 3, 6, 1, 4, 1, 99999, 1, 9}
+
+func encodeOCSP(s *OCSPRespSpec, tbsPad int) []byte {
 	var rd ocspResponseData
 	if s.ByName {
 		rd.RawResponderID = asn1.RawValue{Class: asn1.ClassContextSpecific, Tag: 1, IsCompound: true, Bytes: s.ResponderCert.RawSubject}
@@ -123,6 +149,9 @@ func EncodeOCSP(s *OCSPRespSpec) []byte {
 			},
 			ThisUpdate:       sg.ThisUpdate.UTC().Truncate(time.Second),
 			SingleExtensions: sg.Exts,
+		}
+		if tbsPad > 0 && len(rd.Responses) == 0 {
+			one.SingleExtensions = append(append([]pkix.Extension(nil), sg.Exts...), pkix.Extension{Id: oidSimPad, Value: make([]byte, tbsPad)})
 		}
 		if !sg.NextUpdate.IsZero() {
 			one.NextUpdate = sg.NextUpdate.UTC().Truncate(time.Second)
@@ -158,8 +187,27 @@ func EncodeOCSP(s *OCSPRespSpec) []byte {
 	for _, c := range s.Embed {
 		b.Certificates = append(b.Certificates, asn1.RawValue{FullBytes: c.Raw})
 	}
-	inner := mustMarshal(b)
-	return mustMarshal(ocspResp{Status: 0, Response: ocspRespBytes{ResponseType: oidOCSPBasic, Response: inner}})
+	wrap := func() []byte {
+		return mustMarshal(ocspResp{Status: 0, Response: ocspRespBytes{ResponseType: oidOCSPBasic, Response: mustMarshal(b)}})
+	}
+	out := wrap()
+	if s.PadTo > len(out)+16 && len(b.Certificates) > 0 {
+		// bring the response to an exact size with a further element of the
+		// (unsigned, unauthenticated) certs list, after the responder's own
+		// certificate; nothing that is signed changes
+		certs := b.Certificates
+		n := s.PadTo - len(out) - 12
+		for iter := 0; iter < 8 && n > 0; iter++ {
+			pad := mustMarshal(struct{ P []byte }{P: make([]byte, n)})
+			b.Certificates = append(append([]asn1.RawValue(nil), certs...), asn1.RawValue{FullBytes: pad})
+			out = wrap()
+			if len(out) == s.PadTo {
+				break
+			}
+			n += s.PadTo - len(out)
+		}
+	}
+	return out
 }
 
 // flipInsideThisUpdate changes one digit of the first GeneralizedTime (the
